@@ -39,6 +39,12 @@ def cases(tier, rng):
     for order in (0, 1):
         line = "c05two %d" % order
         cs.append({"line": line, "key": line, "model": False, "tags": {"carrier": "two-upstreams", "order": order}})
+    # a peer of the harness's own making that completes the session handshake without asking for StartTLS (it presents no certificate)
+    # against each kind of real server that has a certificate: let in only when client certificates are not required
+    for k in ("starttls-socket", "starttls-ws", "starttls-kcp"):
+        for req in (0, 1):
+            line = "c05raw %s %d" % (k, req)
+            cs.append({"line": line, "key": line, "model": False, "tags": {"carrier": "raw-no-starttls;" + k, "req": req}})
     # a UDP endpoint with a shared secret AND a certificate: the secret does not make the carrier count as encrypted - the server offers
     # StartTLS and the session is upgraded (with and without the client requiring security)
     for must in (0, 1):
@@ -65,6 +71,14 @@ def oracle(case, impl):
     p = impl.split()
     if not p or p[0] in ("panic", "died", "timeout", "harness-error"):
         return [("crash", "cell crashed: %s -> %s" % (case["line"], impl[:100]))]
+    if t["carrier"].startswith("raw-no-starttls"):
+        if p[0] != "status":
+            return [("crash", "cell could not be run: %s -> %s" % (case["line"], impl[:100]))]
+        if t["req"] == 1 and "s101" in p:
+            return [("client-cert-not-enforced;raw-no-starttls", "the server requires client certificates, yet a peer that never asked for StartTLS (and so presented none) was let in: %s -> %s" % (case["line"], impl))]
+        if t["req"] == 0 and "s101" not in p:
+            return [("good-peer-refused;carrier=" + t["carrier"], "without the client-certificate requirement a plain session is the documented behaviour: %s -> %s" % (case["line"], impl))]
+        return []
     if t["carrier"] == "two-upstreams":
         if p != ["A", "ok", "B", "err"]:
             return [("host-name-not-per-upstream", "the certificate names localhost only: tcp+tls://localhost must be accepted and tcp+tls://127.0.0.1 refused, in "
